@@ -93,13 +93,16 @@ def disjuncts(t):
     return [t]
 
 
-def find_guard(f, pred, exc=None, before_line=None):
+def find_guard(f, pred, exc=None, before_line=None, dominate_returns=False):
     """An `if <test>: raise X` at the unconditional top level of the function (or nested only under try/with)
     where some disjunct of <test> satisfies ``pred``.  Returns the If node or None."""
     def scan(stmts):
         for s in stmts:
             if before_line is not None and s.lineno >= before_line:
                 break
+            if dominate_returns and isinstance(s, ast.If) and not any(pred(d) for d in disjuncts(s.test)) and \
+                    any(isinstance(x, ast.Return) for b in s.body + s.orelse for x in ast.walk(b)):
+                return None      # an early return precedes the guard: the guard does not dominate every exit
             if isinstance(s, ast.If):
                 if any(pred(d) for d in disjuncts(s.test)) and exits(s.body):
                     if isinstance(s.body[-1], ast.Raise):
